@@ -134,7 +134,7 @@ func planC10(tier string, root *simcore.RNG) *plan {
 	names := catalogueNames()
 	perEntry, renderEvery := 1, 4
 	if tier == "thorough" {
-		perEntry, renderEvery = 10, 1
+		perEntry, renderEvery = 40, 1
 	}
 	rot := root.Intn(renderEvery)
 	for ni, name := range names {
@@ -158,7 +158,7 @@ func planC10(tier string, root *simcore.RNG) *plan {
 		if ni%renderEvery == rot && !e.Heavy {
 			reps := 1
 			if tier == "thorough" {
-				reps = 2
+				reps = 6
 			}
 			for k := 0; k < reps; k++ {
 				r := root.Fork()
